@@ -390,6 +390,53 @@ def delimited_token(rep, lib):
 
 # ------------------------------------------------------------------ (c) inspect before consume (typestate)
 
+def _answer_used(c):
+    """Is the byte answered by this Reader::next() call read afterwards (matched, compared, stored and tested), as
+    opposed to `r.next()?;` where only the error is looked at?"""
+    b = c.body
+    cache = b.__dict__.setdefault("_answer_used", {})
+    if c.bb in cache:
+        return cache[c.bb]
+    holders = {c.dest["l"]} if not c.dest["p"] else set()
+    grew = True
+    while grew:
+        grew = False
+        for c2 in b.calls:
+            if (c2.callee or "") == "std::ops::Try::branch" and c2.args and c2.args[0].get("k") in ("move", "copy") \
+                    and c2.args[0]["place"]["l"] in holders and c2.dest["l"] not in holders:
+                holders.add(c2.dest["l"])
+                grew = True
+        for bb, idx, place, rv, _ in b.assignments():
+            if rv["k"] == "use" and rv["op"].get("k") in ("move", "copy") and rv["op"]["place"]["l"] in holders \
+                    and not place["p"] and place["l"] not in holders and place["l"] != 0:
+                holders.add(place["l"])
+                grew = True
+    byte_holders = {l for l in holders if b.local_ty(l) in ("std::option::Option<u8>", "u8")}
+    used = False
+    for bb, idx, place, rv, _ in b.assignments():
+        k = rv["k"]
+        ops = []
+        if k == "discr":
+            ops = [rv["place"]]
+        elif k == "binop":
+            ops = [o.get("place") for o in (rv["a"], rv["b"])]
+        elif k in ("cast", "unop"):
+            ops = [(rv.get("op") or rv.get("a") or {}).get("place")]
+        elif k == "use" and rv["op"].get("k") in ("move", "copy") and rv["op"]["place"]["p"]:
+            ops = [rv["op"]["place"]]          # the payload of the Option read out
+        for pl in ops:
+            if pl and pl["l"] in byte_holders:
+                used = True
+    for c2 in b.calls:
+        if (c2.callee or "") in ("std::ops::Try::branch", "std::ops::FromResidual::from_residual"):
+            continue
+        for a in c2.args:
+            if a.get("k") in ("move", "copy") and a["place"]["l"] in byte_holders:
+                used = True
+    cache[c.bb] = used
+    return used
+
+
 class Inspect:
     """Typestate of the reader's current byte: FRESH (became current, not yet looked at) / SEEN (peeked).
     peek: -> SEEN.  next in FRESH: a byte is dropped unseen (violation).  next: -> FRESH."""
@@ -422,7 +469,8 @@ class Inspect:
             if is_reader_next(c):
                 if envv.get(STATE) == FRESH:
                     viol.append(c)
-                envv[STATE] = FRESH
+                # `cur = r.next()?` whose answer the code goes on to test has looked at the new current byte
+                envv[STATE] = SEEN if _answer_used(c) else FRESH
                 return None
             if n in self.touch and n in self.lib.bodies and not c.is_dyn() and STATE in envv:
                 v, outs = self.query(n, envv[STATE])
